@@ -730,6 +730,12 @@ func init() {
 		in.model = nil
 		return v
 	})
+	reg("math/rand.Int", func(in *Interp, fr *frame, args []value) value {
+		v := in.fresh("rand.Int", 64)
+		in.pc = append(in.pc, in.tt.SLe(in.tt.Const(64, 0), v))
+		in.model = nil
+		return v
+	})
 	reg("math/rand.Int63", func(in *Interp, fr *frame, args []value) value {
 		v := in.fresh("rand.Int63", 64)
 		in.pc = append(in.pc, in.tt.SLe(in.tt.Const(64, 0), v))
